@@ -61,6 +61,9 @@ query_st = st.fixed_dictionaries({
     'unrelated': st.integers(0, 2),
     'via': st.sampled_from(['legacy', 'legacy', 'legacy', 'qm', 'qu', 'qu']),
     'qu': st.lists(st.booleans(), min_size=4, max_size=4),      # per question, used when via == 'qu' (port 5353)
+    # a port-5353 query may come in two packets: the known answers in a first packet with the TC bit, the questions (again) in a
+    # second one 100 ms later - which may be a probe (authority section) of a registration the same host is making
+    'split': st.sampled_from([None, None, None, None, 'tc', 'tc+probe']),
 })
 op_st = st.one_of(
     st.integers(0, 5).map(lambda k: ['reg', k]),
@@ -408,7 +411,17 @@ class Exec:
                 st_['mixed_qu_qm_queries'] += 1
             await asyncio.sleep(1.7)   # drain multicast answers still queued for earlier queries
             n0 = len(w.net.trace)
-            w.net.inject(self.host, data, (CLIENT_IP, 5353))
+            if q.get('split') and ka_rrs:
+                st_['two_packet_queries'] = st_.get('two_packet_queries', 0) + 1
+                first = rp.build_query([(n, t, u) for (n, t), u in zip(questions, qu_bits)][:1], ka_rrs, qid=self.port & 0xFFFF, tc=True)
+                auth = [rp.wire_rr_of_ident(('PTR', '_http._tcp.local.', 'probe-candidate._http._tcp.local.'), 4500)] \
+                    if q['split'] == 'tc+probe' else []
+                second = rp.build_query([(n, t, u) for (n, t), u in zip(questions, qu_bits)], [], qid=self.port & 0xFFFF, authorities=auth)
+                w.net.inject(self.host, first, (CLIENT_IP, 5353))
+                await asyncio.sleep(0.1)
+                w.net.inject(self.host, second, (CLIENT_IP, 5353))
+            else:
+                w.net.inject(self.host, data, (CLIENT_IP, 5353))
             await asyncio.sleep(1.7)
             # a question with the QU bit is answered by unicast to the querier (and by multicast as well when the record was
             # not multicast recently); which way each answer travels is C11's subject - here the union must be right
